@@ -193,9 +193,19 @@ def vector_param_calls(repo: Repo, fn: FuncInfo) -> List[Tuple[ast.Call, str, st
             if not isinstance(n, ast.Call):
                 continue
             tgt = repo.resolve_expr(fn.module, n.func) if isinstance(n.func, (ast.Name, ast.Attribute)) else None
-            if not isinstance(tgt, FuncInfo) or tgt.cls is not None:
+            if isinstance(tgt, ClassInfo):
+                init = repo.find_method(tgt, "__init__")
+                if init is None:
+                    continue
+                tgt = init
+                params = [a for a in tgt.node.args.args][1:]
+            elif isinstance(tgt, FuncInfo) and tgt.cls is None:
+                params = [a for a in tgt.node.args.args]
+            else:
                 continue
-            params = [a for a in tgt.node.args.args]
+            # a parameter called origin / point / position / center is a position whatever its annotation says
+            # (Revolve.__init__ annotates `origin: VectorType`)
+            params = [p_ if not any(w in p_.arg for w in ("origin", "point", "position", "center")) else ast.arg(arg=p_.arg, annotation=None) for p_ in params]
             for i, arg in enumerate(n.args):
                 if i < len(params) and ann_kind(params[i].annotation) == V:
                     out.append((n, tgt.qualname, params[i].arg, kinds.kind(arg)))
